@@ -169,6 +169,20 @@ def run(repo: Repo, chk: Check, thorough: bool = False) -> None:
     chk.ob('R15.3', f'{DELIM}.__init__ :: decision depends on the operand side', side,
            how if side else 'the parenthesis decision never looks at which operand of its parent the node is: for a left-associative '
            'operator `a-(b-c)`, `a/(b*c)`, `a<<(b<<c)` lose their parentheses and change meaning. slice: ' + slice_txt[:300], init.loc)
+    # (b') the operand-side rule holds for every binary operator but **: no exemption by operator class
+    opclasses = {c.__name__ for c in ast.operator.__subclasses__()} - {'Pow'}
+    for x in sl:
+        for n in ast.walk(x):
+            if isinstance(n, ast.If) or isinstance(n, ast.BoolOp):
+                cond = n.test if isinstance(n, ast.If) else n
+                txt = norm(cond)
+                if ('.right' in txt or '.left' in txt) and ' is ' in txt:
+                    exempt = sorted({d[4:] for d in (dotted(a) or '' for a in ast.walk(cond)) if d.startswith('ast.') and d[4:] in opclasses})
+                    chk.ob('R15.3', f'{DELIM}.__init__ :: operand-side rule applies to every operator', not exempt,
+                           'no operator class is exempted' if not exempt else
+                           f'the right-operand rule is switched off for {exempt}: operators of equal precedence are not interchangeable '
+                           '(2*(7%4) would be displayed as 2*7%4)', repo.loc(init.mod, cond))
+                    break
     # (c) BoolOp parents raise the threshold
     booltest = any(isinstance(n, ast.Call) and call_name(n) == 'isinstance' and 'BoolOp' in norm(n) for x in sl for n in ast.walk(x))
     chk.ob('R15.3', f'{DELIM}.__init__ :: nested boolean operators', booltest,
